@@ -25,6 +25,7 @@ import (
 	"os"
 	"sort"
 	"strings"
+	"sync"
 	"time"
 
 	"github.com/andres-erbsen/clock"
@@ -52,8 +53,16 @@ var run *evid.Run
 func note(class string) {
 	if run != nil {
 		run.Distinct(class)
+		classMu.Lock()
+		classes[class] = true
+		classMu.Unlock()
 	}
 }
+
+var (
+	classMu sync.Mutex
+	classes = map[string]bool{}
+)
 
 // ===================================================================
 // E3-a: BlobMemoryCache histories
@@ -260,6 +269,11 @@ const (
 type lEnt struct {
 	key string
 	exp time.Time
+	// refreshed: the key was re-added while cached. Part of the search key only:
+	// a state reached through a refresh is kept apart from the same model state
+	// reached through fresh adds, because the implementation's internal order
+	// (not observable yet) may differ exactly there.
+	refreshed bool
 }
 
 type lruSys struct {
@@ -275,7 +289,7 @@ func newLRU(size int) *lruSys {
 	return &lruSys{
 		label: fmt.Sprintf("lru size=%d", size),
 		size:  size,
-		keys:  []string{"a", "b", "c", "d"}[:size+1],
+		keys:  []string{"a", "b", "c", "d", "e"}[:size+1],
 		c:     cache.NewLRUCache(cache.LRUCacheConfig{Size: size, TTL: lruTTL}),
 	}
 }
@@ -330,9 +344,10 @@ func (s *lruSys) Apply(op string) error {
 		if vtime.Reads == reads {
 			return errors.New("LRUCache.Add did not read the vtime clock: the time import was not rewritten")
 		}
+		refreshed := s.find(f[1]) >= 0
 		s.remove(f[1])
 		s.purgeExpired()
-		s.order = append(s.order, lEnt{f[1], vtime.Current().Add(lruTTL)})
+		s.order = append(s.order, lEnt{f[1], vtime.Current().Add(lruTTL), refreshed})
 		// which keys survived? The statement fixes the ORDER of dropping and the
 		// maximum, not the number dropped: the model follows the observed number.
 		var surv []lEnt
@@ -411,7 +426,14 @@ func (s *lruSys) Key() string {
 	now := vtime.Current()
 	var b strings.Builder
 	for _, e := range s.order {
-		fmt.Fprintf(&b, "%s+%d,", e.key, e.exp.Sub(now)/time.Millisecond)
+		if now.After(e.exp) {
+			fmt.Fprintf(&b, "%s+expired,", e.key) // behaviour depends only on expired-or-not
+		} else {
+			fmt.Fprintf(&b, "%s+%d,", e.key, e.exp.Sub(now)/time.Millisecond)
+		}
+		if e.refreshed {
+			b.WriteString("r,")
+		}
 	}
 	fmt.Fprintf(&b, "|S%d|", s.c.Size())
 	for _, k := range s.keys {
@@ -448,7 +470,7 @@ func mkBlob(tag, content string) blob {
 	return blob{tag, []byte(content), d.Hex()}
 }
 
-var blobs = map[string]blob{"A": mkBlob("A", "ab"), "B": mkBlob("B", "xyz")}
+var blobs = map[string]blob{"A": mkBlob("A", "ab"), "B": mkBlob("B", "xyz"), "C": mkBlob("C", "q")}
 
 const memTTL = time.Minute
 
@@ -456,6 +478,7 @@ var errInjected = errors.New("injected write failure")
 
 type caSys struct {
 	label string
+	tags  []string // blobs of the alphabet
 	max   uint64
 	dir   string
 	clk   *fclock
@@ -463,7 +486,10 @@ type caSys struct {
 	mem   *cache.BlobMemoryCache
 }
 
-func newCA(max uint64) (*caSys, error) {
+func newCA(max uint64, tags ...string) (*caSys, error) {
+	if len(tags) == 0 {
+		tags = []string{"A", "B"}
+	}
 	dir, err := os.MkdirTemp("", "c13-")
 	if err != nil {
 		return nil, err
@@ -491,7 +517,7 @@ func newCA(max uint64) (*caSys, error) {
 	if time.Duration(cas.VerifMemoryTTL()) != memTTL {
 		return nil, fmt.Errorf("unexpected memory TTL %v", time.Duration(cas.VerifMemoryTTL()))
 	}
-	return &caSys{label: fmt.Sprintf("castore max=%d", max), max: max, dir: dir, clk: clk, cas: cas, mem: cas.VerifMemCache()}, nil
+	return &caSys{label: fmt.Sprintf("castore max=%d", max), tags: tags, max: max, dir: dir, clk: clk, cas: cas, mem: cas.VerifMemCache()}, nil
 }
 
 func (s *caSys) Close() {
@@ -594,7 +620,7 @@ func (s *caSys) balance(fpPrefix, after string) error {
 func (s *caSys) Ops() []string {
 	var ops []string
 	for _, k := range writeKinds {
-		for _, b := range []string{"A", "B"} {
+		for _, b := range s.tags {
 			ops = append(ops, "w "+b+" "+k)
 		}
 	}
@@ -651,7 +677,13 @@ func (s *caSys) Key() string {
 	for i := range qn {
 		q = append(q, fmt.Sprintf("%s/%d", qn[i][:4], qr[i]))
 	}
-	return fmt.Sprintf("%v|T%d|q%v|dA%v|dB%v", ks, s.mem.TotalBytes(), q, s.cas.VerifOnDisk(blobs["A"].name), s.cas.VerifOnDisk(blobs["B"].name))
+	disk := ""
+	for _, t := range s.tags {
+		if s.cas.VerifOnDisk(blobs[t].name) {
+			disk += t
+		}
+	}
+	return fmt.Sprintf("%v|T%d|q%v|disk:%s", ks, s.mem.TotalBytes(), q, disk)
 }
 
 // ===================================================================
@@ -767,19 +799,32 @@ type mcThread struct {
 	size uint64
 }
 
+// plan: preemption bound per tier (0 = not run in that tier).
+type plan struct{ quick, thorough int }
+
+func (p plan) bound(thorough bool) int {
+	if thorough {
+		return p.thorough
+	}
+	return p.quick
+}
+
 type mcScenario struct {
-	name     string
-	max      uint64
-	threads  []mcThread
-	thorough bool
+	name    string
+	max     uint64
+	threads []mcThread
+	rounds  int // repetitions of the remover / observer bodies
+	plan    plan
 }
 
 var mcScenarios = []mcScenario{
-	{name: "mc same-name writers+remover", max: 4, threads: []mcThread{{"writer", "b", 2}, {"writer", "b", 2}, {"remover", "b", 0}}},
-	{name: "mc over-budget writers+observer", max: 3, threads: []mcThread{{"writer", "a", 2}, {"writer", "b", 2}, {"observer", "", 0}}},
-	{name: "mc writer+expirer+observer", max: 4, threads: []mcThread{{"writer", "a", 2}, {"expirer", "", 0}, {"observer", "", 0}}},
-	{name: "mc two writers+expirer+observer", max: 4, thorough: true, threads: []mcThread{{"writer", "a", 2}, {"expirer", "", 0}, {"writer", "b", 3}, {"observer", "", 0}}},
-	{name: "mc three writers+remover+observer", max: 4, thorough: true, threads: []mcThread{{"writer", "a", 2}, {"writer", "a", 2}, {"writer", "b", 2}, {"remover", "a", 0}, {"observer", "", 0}}},
+	{name: "mc same-name writers+remover", max: 4, rounds: 1, plan: plan{2, 3}, threads: []mcThread{{"writer", "b", 2}, {"writer", "b", 2}, {"remover", "b", 0}}},
+	{name: "mc over-budget writers+observer", max: 3, rounds: 1, plan: plan{2, 3}, threads: []mcThread{{"writer", "a", 2}, {"writer", "b", 2}, {"observer", "", 0}}},
+	{name: "mc writer+expirer+observer", max: 4, rounds: 1, plan: plan{2, 3}, threads: []mcThread{{"writer", "a", 2}, {"expirer", "", 0}, {"observer", "", 0}}},
+	{name: "mc same-name writers+remover x2", max: 4, rounds: 2, plan: plan{0, 3}, threads: []mcThread{{"writer", "b", 2}, {"writer", "b", 2}, {"remover", "b", 0}}},
+	{name: "mc two writers+expirer+observer", max: 4, rounds: 1, plan: plan{0, 2}, threads: []mcThread{{"writer", "a", 2}, {"expirer", "", 0}, {"writer", "b", 3}, {"observer", "", 0}}},
+	{name: "mc three writers", max: 4, rounds: 1, plan: plan{0, 3}, threads: []mcThread{{"writer", "a", 2}, {"writer", "a", 2}, {"writer", "b", 2}}},
+	{name: "mc three writers+remover+observer", max: 4, rounds: 1, plan: plan{0, 1}, threads: []mcThread{{"writer", "a", 2}, {"writer", "a", 2}, {"writer", "b", 2}, {"remover", "a", 0}, {"observer", "", 0}}},
 }
 
 func mcHarness(sc mcScenario) *vrt.Harness {
@@ -818,7 +863,7 @@ func mcHarness(sc mcScenario) *vrt.Harness {
 					rec(i, mcIn{op: "release", size: th.size}, func() mcOut { c.ReleaseReservation(th.size); return mcOut{} })
 					released += th.size
 				case "remover":
-					for k := 0; k < 2; k++ {
+					for k := 0; k < sc.rounds; k++ {
 						rec(i, mcIn{op: "remove", name: th.name}, func() mcOut { c.Remove(th.name); return mcOut{} })
 					}
 				case "expirer":
@@ -830,7 +875,7 @@ func mcHarness(sc mcScenario) *vrt.Harness {
 					})
 					rec(i, mcIn{op: "removebatch", names: g.names}, func() mcOut { c.RemoveBatch(names); return mcOut{} })
 				case "observer":
-					for k := 0; k < 2; k++ {
+					for k := 0; k < sc.rounds; k++ {
 						rec(i, mcIn{op: "total"}, func() mcOut { return mcOut{n: c.TotalBytes()} })
 						rec(i, mcIn{op: "num"}, func() mcOut { return mcOut{n: uint64(c.NumEntries())} })
 					}
@@ -885,19 +930,22 @@ type wspec struct {
 }
 
 type caScenario struct {
-	name     string
-	max      uint64
-	writers  []wspec
-	drains   int
-	ttl      bool
-	thorough bool
+	name    string
+	max     uint64
+	writers []wspec
+	drains  int // steps of the drain thread (0: no drain thread; the queue is drained after the join)
+	ttl     bool
+	coarse  plan // scheduling points: memory cache locks + download step
+	fine    plan // additionally every lock of lib/store and lib/store/base
 }
 
 var caScenarios = []caScenario{
-	{name: "ca same-name writers+drain", max: 4, writers: []wspec{{"A", "exact"}, {"A", "exact"}}, drains: 2},
-	{name: "ca over-budget writers+drain+ttl", max: 4, writers: []wspec{{"A", "exact"}, {"B", "exact"}}, drains: 1, ttl: true},
-	{name: "ca failing writer+same-name writer+drain+ttl", max: 4, writers: []wspec{{"A", "failmid"}, {"A", "exact"}}, drains: 1, ttl: true},
-	{name: "ca three writers+drain+ttl", max: 5, thorough: true, writers: []wspec{{"A", "exact"}, {"A", "failonce"}, {"B", "exact"}}, drains: 2, ttl: true},
+	{name: "ca same-name writers+drain", max: 4, writers: []wspec{{"A", "exact"}, {"A", "exact"}}, drains: 2, coarse: plan{2, 3}, fine: plan{1, 2}},
+	{name: "ca over-budget writers+ttl", max: 4, writers: []wspec{{"A", "exact"}, {"B", "exact"}}, ttl: true, coarse: plan{2, 3}, fine: plan{1, 2}},
+	{name: "ca failing writer+same-name writer+drain+ttl", max: 4, writers: []wspec{{"A", "failmid"}, {"A", "exact"}}, drains: 1, ttl: true, coarse: plan{1, 2}, fine: plan{0, 1}},
+	{name: "ca over-budget writers+drain+ttl", max: 4, writers: []wspec{{"A", "exact"}, {"B", "exact"}}, drains: 1, ttl: true, coarse: plan{0, 2}, fine: plan{0, 1}},
+	{name: "ca three writers", max: 4, writers: []wspec{{"A", "exact"}, {"A", "failonce"}, {"B", "exact"}}, coarse: plan{0, 3}, fine: plan{0, 1}},
+	{name: "ca three writers+drain+ttl", max: 4, writers: []wspec{{"A", "exact"}, {"A", "failonce"}, {"B", "exact"}}, drains: 1, ttl: true, coarse: plan{0, 1}},
 }
 
 func caHarness(sc caScenario, fine bool) *vrt.Harness {
@@ -962,12 +1010,14 @@ func caHarness(sc caScenario, fine bool) *vrt.Harness {
 				reservationsSeen++
 			}
 		}
-		vrt.GoNamed("drain", func() {
-			for k := 0; k < sc.drains; k++ {
-				s.cas.VerifDrainNext()
-				snapshot()
-			}
-		})
+		if sc.drains > 0 {
+			vrt.GoNamed("drain", func() {
+				for k := 0; k < sc.drains; k++ {
+					s.cas.VerifDrainNext()
+					snapshot()
+				}
+			})
+		}
 		if sc.ttl {
 			vrt.GoNamed("ttl", func() {
 				s.clk.now = s.clk.now.Add(memTTL + time.Second)
@@ -1037,6 +1087,14 @@ func main() {
 	run.Assume("CAStore drain / TTL workers are replaced by explicit calls of their step functions (drainNext, cleanupMemoryCacheExpiredEntries)")
 
 	th := run.Thorough()
+	search := func(name string, cfg bfs.Config) {
+		st := time.Now()
+		res := rep.BFS(run, name, cfg)
+		for i := 0; i < res.States; i++ {
+			run.Distinct(fmt.Sprintf("%s#%d", name, i))
+		}
+		fmt.Printf("  %s: %d states, %d transitions, depth reached %d, fixpoint=%v, completed=%v, %.1fs\n", name, res.States, res.Transitions, res.MaxDepth, res.Fixpoint, res.Completed, time.Since(st).Seconds())
+	}
 	dl := func(sec int) time.Time { return time.Now().Add(time.Duration(sec) * time.Second) }
 
 	phaseStart := time.Now()
@@ -1048,49 +1106,46 @@ func main() {
 		run.Set("phase_seconds", phases0)
 	}
 	// ---- E3-a
-	mcDepth, mcCap := 5, 25
+	mcDepth, mcCap := 8, 15
+	mcMax := []uint64{2, 3}
 	if th {
-		mcDepth, mcCap = 8, 150
+		mcDepth, mcCap = 20, 60
+		mcMax = []uint64{2, 3, 4}
 	}
-	for _, m := range []uint64{2, 3} {
+	for _, m := range mcMax {
 		m := m
 		name := fmt.Sprintf("memcache max=%d depth=%d", m, mcDepth)
-		res := rep.BFS(run, name, bfs.Config{MaxDepth: mcDepth, Deadline: dl(mcCap), New: func() (bfs.System, error) { return newMC(m), nil }})
-		for i := 0; i < res.States; i++ {
-			run.Distinct(fmt.Sprintf("%s#%d", name, i))
-		}
+		search(name, bfs.Config{MaxDepth: mcDepth, Deadline: dl(mcCap), New: func() (bfs.System, error) { return newMC(m), nil }})
 	}
 
 	lap("E3 memcache")
 	// ---- E3-b (global vtime clock: one worker)
-	lruDepth, lruCap := 5, 25
+	lruDepth, lruCap := 16, 15
+	lruSizes := []int{1, 2, 3}
 	if th {
-		lruDepth, lruCap = 8, 150
+		lruDepth, lruCap = 20, 60
+		lruSizes = []int{1, 2, 3, 4}
 	}
-	for _, size := range []int{1, 2, 3} {
+	for _, size := range lruSizes {
 		size := size
 		name := fmt.Sprintf("lru size=%d depth=%d", size, lruDepth)
-		res := rep.BFS(run, name, bfs.Config{MaxDepth: lruDepth, Workers: 1, Deadline: dl(lruCap), New: func() (bfs.System, error) { return newLRU(size), nil }})
-		for i := 0; i < res.States; i++ {
-			run.Distinct(fmt.Sprintf("%s#%d", name, i))
-		}
+		search(name, bfs.Config{MaxDepth: lruDepth, Workers: 1, Deadline: dl(lruCap), New: func() (bfs.System, error) { return newLRU(size), nil }})
 	}
 
 	lap("E3 lru")
 	// ---- E3-c
-	caDepth, caCap := 4, 40
+	caDepth, caCap := 12, 20
 	caMax := []uint64{4}
+	caTags := []string{"A", "B"}
 	if th {
-		caDepth, caCap = 6, 240
+		caDepth, caCap = 9, 150
 		caMax = []uint64{4, 5}
+		caTags = []string{"A", "B", "C"}
 	}
 	for _, m := range caMax {
 		m := m
 		name := fmt.Sprintf("write-through max=%d depth=%d", m, caDepth)
-		res := rep.BFS(run, name, bfs.Config{MaxDepth: caDepth, Deadline: dl(caCap), New: func() (bfs.System, error) { return newCA(m) }})
-		for i := 0; i < res.States; i++ {
-			run.Distinct(fmt.Sprintf("%s#%d", name, i))
-		}
+		search(name, bfs.Config{MaxDepth: caDepth, Deadline: dl(caCap), New: func() (bfs.System, error) { return newCA(m, caTags...) }})
 	}
 
 	lap("E3 write-through")
@@ -1102,39 +1157,71 @@ func main() {
 		if o1 != o2 {
 			run.Fatal(errors.New("non-deterministic replay in " + h.Name + ": " + o1 + " vs " + o2))
 		}
+		st := time.Now()
 		r := rep.VRT(run, h, bound, evid.Workers(), maxDur, fingerprint)
 		e1Exec += int64(r.Executions)
-	}
-	mcBound, mcDur := 2, 30
-	if th {
-		mcBound, mcDur = 3, 200
-	}
-	for _, sc := range mcScenarios {
-		if sc.thorough && !th {
-			continue
+		var oc []string
+		for k := range r.Outcomes {
+			oc = append(oc, k)
 		}
-		explore(mcHarness(sc), mcBound, mcDur)
+		sort.Strings(oc)
+		if len(oc) > 12 {
+			oc = oc[:12]
+		}
+		run.Set("outcomes:"+h.Name, oc)
+		fmt.Printf("  %s bound=%d: %d executions, %d outcomes, max %d points, completed=%v, %.1fs\n", h.Name, bound, r.Executions, len(r.Outcomes), r.MaxPoints, r.Completed, time.Since(st).Seconds())
 	}
-	lap("E1 memcache")
-	type phase struct {
-		fine  bool
+	// E1 time budget: every harness may use an equal share of what is left
+	// (unused time rolls over); a harness that hits its share marks the run
+	// NotExhaustive. Sizes are chosen so that this does not happen on an idle
+	// 16-core machine.
+	type job struct {
+		h     *vrt.Harness
 		bound int
 	}
-	phases := []phase{{false, 2}, {true, 1}}
-	caDur := 30
-	if th {
-		phases = []phase{{false, 3}, {true, 2}}
-		caDur = 300
+	var mcJobs, caJobs []job
+	for _, sc := range mcScenarios {
+		if b := sc.plan.bound(th); b > 0 {
+			mcJobs = append(mcJobs, job{mcHarness(sc), b})
+		}
 	}
 	for _, sc := range caScenarios {
-		if sc.thorough && !th {
-			continue
+		if b := sc.coarse.bound(th); b > 0 {
+			caJobs = append(caJobs, job{caHarness(sc, false), b})
 		}
-		for _, ph := range phases {
-			explore(caHarness(sc, ph.fine), ph.bound, caDur)
+		if b := sc.fine.bound(th); b > 0 {
+			caJobs = append(caJobs, job{caHarness(sc, true), b})
 		}
 	}
+	budget := 45 * time.Second
+	if th {
+		budget = 11 * time.Minute
+	}
+	if v, err := time.ParseDuration(os.Getenv("C13_E1_BUDGET")); err == nil && v > 0 {
+		budget = v // development knob: measure full tree sizes on a loaded machine
+	}
+	e1End := time.Now().Add(budget)
+	left := len(mcJobs) + len(caJobs)
+	runJobs := func(js []job) {
+		for _, j := range js {
+			share := int(time.Until(e1End).Seconds()) / left
+			if share < 3 {
+				share = 3
+			}
+			left--
+			explore(j.h, j.bound, share)
+		}
+	}
+	runJobs(mcJobs)
+	lap("E1 memcache")
+	runJobs(caJobs)
 	lap("E1 write-through")
+	var cl []string
+	for c := range classes {
+		cl = append(cl, c)
+	}
+	sort.Strings(cl)
+	run.Set("operation_outcome_classes", cl)
 	run.Set("e1_executions", e1Exec)
 	run.Set("e3_transitions", run.Transitions)
 	run.Finish()
